@@ -90,6 +90,8 @@ var c = big.NewInt(n)
 func f(x *big.Int) *big.Int { return new(big.Int).Add(x, c) }`, "f", false, "non-constant argument"},
 	{"package-level constant as the receiver of a modifying method", bigPre + `var one = big.NewInt(1)
 func f(x *big.Int) *big.Int { one.Add(one, x); return new(big.Int).Set(x) }`, "f", false, "one is used in another way at"},
+	{"exported package-level variable is not a constant (another package may modify it)", bigPre + `var One = big.NewInt(1)
+func f(x *big.Int) bool { return x.Cmp(One) == 0 }`, "f", false, "One is exported"},
 	{"returning a package-level constant", bigPre + `var one = big.NewInt(1)
 func f() *big.Int { return one }`, "f", false, "one is used in another way at"},
 	{"Lsh by a signed count", bigPre + `func f(x *big.Int, n int64) *big.Int { return new(big.Int).Lsh(x, uint(n)+uint(1)) }`, "f", true, "(Go.bigLsh x (n + 1#64).toNat)"},
